@@ -379,7 +379,12 @@ def run_recipe(ctx, rng, r, d=None, asymmetric_ok=False, pre=None):
     try:
         schema = json.loads(d.export_ksy())
     except C.ConstructError as e:
-        ctx.count("not_exportable")          # outside the exportable fragment: nothing claimed
+        # outside the exportable fragment (nothing claimed): classes without an exporter, and a self-inclusive length whose length
+        # field has no fixed size (no construct can parse that either).  Any other failure to export is a failure of the exporter.
+        if "does not implement KSY export" in str(e) or (isinstance(e, C.SizeofError) and unsized_inclusive_prefix(r)):
+            ctx.count("not_exportable")
+            return
+        ctx.violation("export-raises:%s:%s" % (type(e).__name__, culprit_export(r)), "export_ksy raised %s: %s" % (type(e).__name__, str(e)[:200]), case)
         return
     except Exception as e:
         ctx.violation("export-raises:%s:%s" % (type(e).__name__, culprit_export(r)), "export_ksy raised %s: %s" % (type(e).__name__, str(e)[:200]), case)
@@ -543,6 +548,14 @@ def classify_ksyerror(msg, schema):
     return "other"
 
 
+def unsized_inclusive_prefix(r):
+    if isinstance(r, list):
+        if r and r[0] == "Prefixed" and len(r) > 3 and r[3] and r[1] in (["name", "VarInt"], ["name", "ZigZag"]):
+            return True
+        return any(unsized_inclusive_prefix(x) for x in r)
+    return False
+
+
 def culprit_export(r):
     from ..libmodel import kinds_in
     ks = kinds_in(r)
@@ -578,6 +591,21 @@ def run(ctx):
                 for consume in (False, True):
                     run_recipe(ctx, rng, ["Struct", [["h", B], ["x", ["NullTerminated", ["name", "GreedyBytes"], tag(term), include, consume, True]]]])
                     run_recipe(ctx, rng, ["Struct", [["h", B], ["x", ["NullTerminated", ["name", "GreedyBytes"], tag(term), include, True, True]], ["t", ["name", "Int16ub"]]]])
+        # padded / fixed-size slots around payloads that have a size or a repetition of their own; length prefixes of every kind
+        for slot in ("Padded", "FixedSized"):
+            for inner in (["Bytes", 3], ["Array", 3, B], ["Struct", [["a", B], ["b", ["name", "Int16ub"]]]], ["PaddedString", 3, "ascii"], ["Array", 2, ["name", "Int16ub"]], ["name", "Int32ub"],
+                          ["Array", 2, ["Struct", [["x", B], ["y", B]]]], ["Padded", 4, ["Bytes", 2]], ["FixedSized", 5, ["Array", 2, B]]):
+                run_recipe(ctx, rng, ["Struct", [["h", B], ["p", [slot, 8, inner]], ["t", ["name", "Int16ub"]]]])
+                run_recipe(ctx, rng, ["Struct", [["ps", ["Array", 2, [slot, 9, inner]]], ["t", B]]])
+        for lf in (["name", "VarInt"], B, ["name", "Int16ul"], ["name", "Int24ub"]):
+            for inner in (["name", "GreedyBytes"], ["Array", 2, B], ["Struct", [["a", B], ["r", ["name", "GreedyBytes"]]]], ["GreedyString", "utf8"], ["GreedyRange", ["name", "Int16ub"]]):
+                run_recipe(ctx, rng, ["Struct", [["h", B], ["p", ["Prefixed", lf, inner, False]], ["t", B]]])
+            run_recipe(ctx, rng, ["Struct", [["xs", ["PrefixedArray", lf, ["name", "Int16ub"]]], ["t", B]]])
+        # conditions that are constants (a module-level switch), true and false, in both conditional forms
+        for cond in (False, True, 0, 1):
+            run_recipe(ctx, rng, ["Struct", [["h", B], ["x", ["If", cond, ["name", "Int16ub"]]], ["t", B]]])
+            run_recipe(ctx, rng, ["Struct", [["h", B], ["x", ["IfThenElse", cond, ["name", "Int16ub"], ["Bytes", 3]]], ["t", B]]])
+            run_recipe(ctx, rng, ["Struct", [["x", ["If", cond, ["Struct", [["a", B], ["b", B]]]]], ["y", ["If", cond, ["Array", 2, B]]], ["t", ["name", "Int16ul"]]]])
         for lf in (B, ["name", "Int16ul"], ["name", "Int32ub"]):
             for incl in (False, True):
                 run_recipe(ctx, rng, ["Struct", [["h", B], ["p", ["Prefixed", lf, ["name", "GreedyBytes"], incl]], ["t", B]]])
